@@ -95,6 +95,25 @@ def conversion_tu(seed):
             b = f"{B}affine<{B}{ib}<{rng.choice(lays)},{V}<float,{n}>>>"
             lines.append(f"template void conv<{a},{b}>(const covfie::field<{a}> &);\n")
             n_pairs += 1
+    # the construction idioms of the examples (generate_test_field.cpp, slice3dto2d.cpp): a pack whose last element is the
+    # owning data of the layer beneath as an lvalue (const or not) taken from another field
+    lines.append("template <class Core, class Full> void idiom(covfie::field<Core> & cf, const covfie::field<Core> & ccf, typename Full::configuration_t a) {\n"
+                 "  covfie::field<Full> f1(covfie::make_parameter_pack(typename Full::configuration_t(a), typename Full::backend_t::configuration_t{}, cf.backend()));\n"
+                 "  covfie::field<Full> f2(covfie::make_parameter_pack(typename Full::configuration_t(a), typename Full::backend_t::configuration_t{}, ccf.backend()));\n"
+                 "  covfie::field<Core> b1(covfie::make_parameter_pack(f1.backend().get_backend().get_backend()));\n"
+                 "  const covfie::field<Full> & cf2 = f2;\n"
+                 "  covfie::field<Core> b2(covfie::make_parameter_pack(cf2.backend().get_backend().get_backend()));\n"
+                 "  (void)b1; (void)b2;\n}\n")
+    for n in (1, 2, 3, 4):
+        t = rng.choice(["float", "double"])
+        m = rng.choice([1, 2, 3])
+        arr = f"{B}array<{V}<{t},{m}>>"
+        iv = f"{V}<std::size_t,{n}>"
+        for core_t in (f"{B}strided<{iv},{arr}>", f"{B}morton<{iv},{arr},false>"):
+            ip = rng.choice(["linear", "nearest_neighbour"])
+            full = f"{B}affine<{B}{ip}<{core_t},{V}<float,{n}>>>"
+            lines.append(f"template void idiom<{core_t},{full}>(covfie::field<{core_t}> &, const covfie::field<{core_t}> &, typename {full}::configuration_t);\n")
+            n_pairs += 1
     return "".join(lines), n_pairs
 
 
